@@ -145,6 +145,10 @@ func runC15(c *Ctx) {
 	checkFloatDigits(c, "R15i")
 	c.Rule("R15j", ruleTextIntParserGuard, 1)
 	checkIntParserGuard(c, "R15j")
+	c.Rule("R15m", ruleTextFoldConsistency, 3)
+	checkFoldConsistency(c, "R15m")
+	c.Rule("R15n", ruleTextTimePrecision, 1)
+	checkTimePrecision(c, "R15n")
 	c.Rule("R15l", ruleTextCommentPresence, 1)
 	checkCommentPresence(c, "R15l")
 	c.Rule("R15k", ruleTextUnquoteOnly, 2)
